@@ -32,6 +32,7 @@ type exprCase struct {
 	WarmNames  map[string]string   `json:"warmNames,omitempty"`
 	WarmValues map[string]model.AV `json:"warmValues,omitempty"`
 	WarmItem   model.Item          `json:"warmItem,omitempty"` // the item the warm expression is evaluated on (default: Item)
+	RV         string              `json:"rv,omitempty"`       // C07 API sample: the ReturnValues parameter of the UpdateItem
 
 	lang *interpreter.Language // one instance per case (nil: a fresh one per call)
 }
@@ -612,6 +613,7 @@ func c07API(c exprCase, res model.UpdateResult) *failure {
 			}
 			op.Cond = "pk <> :c07pk"
 		}
+		op.ReturnValues = c.RV
 		up := d.Apply(op)
 		if up.Err == model.ErrRuntimePanic {
 			return newFail("runtime panic", "%s UpdateItem %q: %s", d.Name(), c.Expr, up.ErrText)
@@ -620,14 +622,14 @@ func c07API(c exprCase, res model.UpdateResult) *failure {
 			return newFail("valid update rejected at the API", "%s UpdateItem %q: %s %s", d.Name(), c.Expr, up.Err, up.ErrText)
 		}
 		get := d.Apply(model.Op{Kind: "Get", Table: "tbl", Key: key})
-		if !model.ItemEqual(want, get.Item) || !model.ItemEqual(want, up.Item) {
+		if !model.ItemEqual(want, get.Item) || c.RV == "" && !model.ItemEqual(want, up.Item) {
 			return newFail("item after UpdateItem differs", "%s %q: model %s, returned %s, stored %s", d.Name(), c.Expr, model.CanonItem(want), model.CanonItem(up.Item), model.CanonItem(get.Item))
 		}
 	}
 	return nil
 }
 
-const ruleC07 = "rapid: (update AST, item or absent item, bindings) - 1-4 clauses (SET with values, paths, + and -, if_not_exists, list_append; REMOVE of attributes, map members and list elements; ADD to numbers and sets; DELETE from sets) with 1-4 actions over non-overlapping targets, on items holding nested documents, lists and sets plus untargeted attributes of every type. In an eighth of the cases a twin that differs only in the letter case of one identifier is applied first (to a copy of the item) on the same interpreter instance. Oracle: the reference update semantics vs interpreter.Language.Update called directly - success/rejection, and on success equality of the entire item (targeted values, removed attributes gone, every other attribute unchanged by value); on rejection the item is unchanged; for a tenth of the cases also UpdateItem + GetItem through both SDK clients, on an existing item and on an absent key. Non-trivial = >= 2 actions or a nested / list target; distinct = hash of (expression, item, bindings)."
+const ruleC07 = "rapid: (update AST, item or absent item, bindings) - 1-4 clauses (SET with values, paths, + and -, if_not_exists, list_append; REMOVE of attributes, map members and list elements; ADD to numbers and sets; DELETE from sets) with 1-4 actions over non-overlapping targets, on items holding nested documents, lists and sets plus untargeted attributes of every type. In an eighth of the cases a twin that differs only in the letter case of one identifier is applied first (to a copy of the item) on the same interpreter instance. Oracle: the reference update semantics vs interpreter.Language.Update called directly - success/rejection, and on success equality of the entire item (targeted values, removed attributes gone, every other attribute unchanged by value); on rejection the item is unchanged; for a tenth of the cases also UpdateItem (half of them with an explicit ReturnValues parameter) + GetItem through both SDK clients, on an existing item and on an absent key. Non-trivial = >= 2 actions or a nested / list target; distinct = hash of (expression, item, bindings)."
 
 // TestC07 decides property C07.
 func TestC07(t *testing.T) {
@@ -650,6 +652,9 @@ func TestC07(t *testing.T) {
 		}
 		if len(ec.Values) == 0 {
 			ec.Values = nil
+		}
+		if ec.API && rapid.Bool().Draw(rt, "apiReturnValues") {
+			ec.RV = rapid.SampledFrom([]string{"NONE", "ALL_OLD", "UPDATED_OLD", "ALL_NEW", "UPDATED_NEW"}).Draw(rt, "rv")
 		}
 		if rapid.IntRange(0, 7).Draw(rt, "caseTwinFirst") == 0 {
 			if tw, n2, v2, ok := updateCaseTwin(rt, u, ec.Names, ec.Values); ok {
